@@ -3,7 +3,9 @@
     the Bose factors written with exp(-Q) (the code on disk) equal the textbook exp(+Q) forms, are
     bounded (0 < Q1 < 1, 0 < Q2 < 4) and decay like Q e^-Q resp. Q^2 e^-Q; every thermal
     contribution is O(T) on T > 0 and hence tends to its T = 0 value 0 as T -> 0+ (c(T) -> c(0));
-    the adiabatic gap likewise when 1/C_V stays bounded (PARTIAL, see below); the shear solver
+    the adiabatic gap likewise, both for the harmonic C_V(T) of the same spectrum (which itself -> 0)
+    and for any C_V with bounded 1/C_V (the C_V that the code really uses comes from qha: measured);
+    the shear solver
     divides by 1 and by a non-zero multiplicity only.
     Finite-ness in binary64 is NOT a theorem over R: it is the float instance of the same model
     run on every sampled grid (tie), and the evaluated Examples at the end. *)
@@ -61,9 +63,9 @@ Section C12.
                 (locally (isothermal (OF:=ROps) K Q1_neg Q2_neg lg w na (sample sp fr) (sample sp ga) (sample sp vd) ei ej V 0 p pst)).
   Proof. intros. eapply isothermal_right_continuous_l; eassumption. Qed.
 
-  (** PARTIAL: the gap tends to 0 when 1/C_V(T) stays bounded near T = 0 (e.g. constant C_V).
-      Missing: with the physical C_V(T) -> 0 the quotient still tends to 0 (Cauchy-Schwarz over the
-      modes); that needs C_V tied to the same spectrum, which the code takes from qha instead. *)
+  (** PARTIAL w.r.t. the code: C_V is an input of the contribution classes (taken from qha).  Here: any
+      C_V(T) with bounded 1/C_V; below ([gap_vanishes]): the harmonic C_V of the same spectrum.  That the
+      numerically differentiated C_V of qha behaves like either is measured, not proved. *)
   Theorem gap_vanishes_partial :
     forall (ei ej V : R) (fr ga : mode -> R) (cv : R -> R), positive_spectrum sp fr ->
       (exists M, forall T, 0 < T -> Rabs (/ cv T) <= M) ->
@@ -73,6 +75,25 @@ Section C12.
   Proof.
     intros ei ej V fr ga cv Hp Hcv. split; [apply lin0_lim; eapply gap_lin0_partial_l; eassumption |].
     apply gap_at_zero_T_l.
+  Qed.
+
+  (** the gap with the harmonic heat capacity of the SAME spectrum, C_V(T) = k sum_qm (w_q/W) Q2(Q_qm(T)) -> 0:
+      the quotient is still O(T) (Cauchy-Schwarz-type bound |sum w Q2 g| <= max|g| sum w Q2), for
+      non-negative weights and k_B > 0 *)
+  Hypothesis Kk : 0 < c_k K.
+  Hypothesis Hw0 : List.Forall (fun x => 0 <= x) w.
+  Theorem gap_vanishes :
+    forall (ei ej V : R) (fr ga : mode -> R), positive_spectrum sp fr ->
+      filterlim (fun T => gap (OF:=ROps) K Q2_neg w na (sample sp fr) (sample sp ga) ei ej V T (cv_harmonic K w sp na fr T))
+                (at_right 0) (locally 0)
+      /\ (exists C, forall T, 0 < T ->
+            Rabs (gap (OF:=ROps) K Q2_neg w na (sample sp fr) (sample sp ga) ei ej V T (cv_harmonic K w sp na fr T)) <= C * T)
+      /\ gap (OF:=ROps) K Q2_neg w na (sample sp fr) (sample sp ga) ei ej V 0 (cv_harmonic K w sp na fr 0) = 0.
+  Proof.
+    intros ei ej V fr ga Hp.
+    assert (L : lin0 (fun T => gap (OF:=ROps) K Q2_neg w na (sample sp fr) (sample sp ga) ei ej V T (cv_harmonic K w sp na fr T)))
+      by (eapply gap_lin0_harmonic_l; eassumption).
+    split; [apply lin0_lim, L | split; [exact L | apply gap_at_zero_T_l]].
   Qed.
 End C12.
 
@@ -117,5 +138,6 @@ Print Assumptions thermal_linear_bound.
 Print Assumptions thermal_vanishes.
 Print Assumptions isothermal_continuous_at_zero_T.
 Print Assumptions gap_vanishes_partial.
+Print Assumptions gap_vanishes.
 Print Assumptions shear_finite.
 (* the two float Examples depend on the kernel primitives of PrimFloat/PrimInt63 only (not printed) *)
